@@ -1,5 +1,5 @@
 (* C03 — barriers (plan level). *)
-From Shred Require Import Base SrcParams Plan PlanObs PlanInv PlanLoc PlanBuild PlanProps PlanLemmas Exec ExecProps ExecPlan.
+From Shred Require Import Base SrcParams Plan PlanObs PlanInv PlanLoc PlanBuild PlanProps PlanLemmas Exec ExecProps ExecPlan BatchProps OracleProps.
 
 (* For ANY program [pre ++ barrier :: post]: there is a stage index B such that everything
    registered before the barrier sits in a stage < B and everything registered after it in a
@@ -42,6 +42,19 @@ Theorem C03_barrier_separates_at_run_time :
       precedes (ER (s_tag (e_sys e1))) (EF (s_tag (e_sys e2))) t.
 Proof. exact run_barrier_separates. Qed.
 Print Assumptions C03_barrier_separates_at_run_time.
+
+(* ---- the oracle `barriers` evaluated on the REAL executed layout ---- *)
+Theorem C03_oracle_barriers_meaning :
+  forall rs l, o_barriers rs l = true ->
+  forall p1 p2, rs = p1 ++ RBarrier :: p2 ->
+  forall t1 t2, In t1 (sys_tags p1) -> In t2 (sys_tags p2) ->
+  exists k1 k2, stage_of t1 l = Some k1 /\ stage_of t2 l = Some k2 /\ (k1 < k2)%nat.
+Proof. exact o_barriers_meaning. Qed.
+Print Assumptions C03_oracle_barriers_meaning.
+Theorem C03_oracle_barriers_holds_on_model_layouts :
+  forall rs b, plan rs = Ok b -> Forall reg_time_ok1 rs -> NoDup (sys_tags rs) -> o_barriers rs (layout_tags b) = true.
+Proof. exact o_barriers_on_model. Qed.
+Print Assumptions C03_oracle_barriers_holds_on_model_layouts.
 
 Example C03_example :
   let rs := [RBarrier; RSys 1 [] [] [] [] 3%Z; RBarrier; RBarrier; RSys 2 [] [] [] [] 3%Z; RTL 9; RBarrier] in
